@@ -166,6 +166,19 @@ def materialize(rc) -> bytes:
 _CRC_TABLE = None
 
 
+def patch_crc32(data: bytes, pos: int, target: int = 0) -> bytes:
+    """``data`` with the four bytes at ``pos`` replaced such that zlib.crc32(result) == target."""
+    forge_crc32(b"", 0)  # make sure the table exists
+    t = _CRC_TABLE
+    rev = {t[i] >> 24: i for i in range(256)}
+    want = target ^ 0xFFFFFFFF
+    for b in reversed(data[pos + 4:]):
+        i = rev[want >> 24]
+        want = ((((want ^ t[i]) << 8) & 0xFFFFFFFF) | (i ^ b)) & 0xFFFFFFFF
+    head = forge_crc32(data[:pos], want ^ 0xFFFFFFFF)
+    return head + data[pos + 4:]
+
+
 def forge_crc32(data: bytes, target: int = 0) -> bytes:
     """data + 4 bytes such that zlib.crc32(result) == target."""
     import zlib
@@ -322,6 +335,8 @@ def to_filters(chain):
 # --- passwords ------------------------------------------------------------------------------------
 def gen_password(rng):
     return rng.wpick([(4, "secret"), (2, "pässwörd"), (1, ""), (1, "🔑key𝕏"), (1, "a"), (1, "with space and a much longer pass phrase 0123456789"),
+                      # white space at the ends is part of the password
+                      (1, rng.pick([" lead", "trail ", "\u3000x\n", " \u2003 ", "tab\t"])),
                       # not in any Unicode normal form: the key is derived from the code units as given
                       (2, rng.pick(["e\u0301cole", "\u1112\u1161\u11ab\u1100\u1173\u11af", "\u212bngstro\u0308m", "A\u030a\u00c5\u212b", "\ufb01\u1e9b\u0323"])),
                       (2, "".join(rng.pick(_ASCII + _BMP) for _ in range(rng.randint(1, 12))))])
